@@ -153,7 +153,7 @@ def random_history(rng: random.Random, steps: int, wild_ok: bool):
     last = None
     for _ in range(steps):
         op = rng.choice(["add", "add", "add", "addvar", "addvar", "rmidx", "rmidxs", "rminst", "rminsts", "allow", "allow0",
-                         "require", "reindex", "find", "find", "rmdup", "addstr", "addderived", "addfile", "rmwhere"])
+                         "require", "reindex", "find", "find", "rmdup", "addstr", "addderived", "addfile", "rmwhere", "refused"])
         n = len(net.reaction_list)
         if op == "add":
             d = random_reaction(rng, wild_ok, pool)
@@ -192,6 +192,20 @@ def random_history(rng: random.Random, steps: int, wild_ok: bool):
             d = rng.choice(seen)
             s = f"{mk(d):naunet}"
             net.add_reaction((s, "naunet"))
+        elif op == "refused":
+            # an edit the object refuses (the caller catches the error and goes on): nothing may have changed
+            kind = rng.choice(["allow", "allow", "require", "rmidx", "add"])
+            try:
+                if kind == "allow":
+                    net.allowed_species = rng.sample(pool, rng.randint(1, len(pool))) + ["Qq"]
+                elif kind == "require":
+                    net.required_species = rng.sample(pool, rng.randint(0, 2)) + ["Qq"]
+                elif kind == "rmidx":
+                    net.remove_reaction(n + rng.randint(0, 3))
+                else:
+                    net.add_reaction(("1,H,Qq,,H2,,,,,1.0e-10,0.0,0.0,-1.0,-1.0,100,test", "naunet"))
+            except Exception:   # noqa
+                pass
         elif op == "rmwhere" and n:
             # what `naunet extend --remove-species` does, for one species (by name or as an object) and any of the three modes
             from naunet.species import Species
@@ -239,6 +253,19 @@ def dup_lists(rng: random.Random, n_lists: int, wild_ok: bool):
         for perm in itertools.permutations([UNIVERSE[0], UNIVERSE[7], UNIVERSE[8]]):
             net = Network([mk(d) for d in perm])
             net.find_duplicate_reaction()
+    # a species that takes part in reactions is ALSO declared as required; then every reaction that mentions it leaves the network
+    # (by removal, by a narrower allowed list): it stays a species, exactly as if the network had been constructed that way
+    for how in ("remove", "allow", "removeall"):
+        net = Network([mk(d) for d in (UNIVERSE[3], UNIVERSE[0], UNIVERSE[2])])       # C + H -> CH ; H + H -> H2 ; H2 -> H + H
+        net.required_species = ["C", "CH"]
+        if how == "remove":
+            net.remove_reaction(0)
+        elif how == "allow":
+            net.allowed_species = ["H", "H2"]
+            net.allowed_species = []
+        else:
+            net.remove_reaction([0, 1, 2])
+        net.find_duplicate_reaction()
     # the same reaction arriving through DIFFERENT readers (a network merged from a KIDA, a UMIST and a native file): each reader
     # has its own Reaction subclass; under the default and the brief mode they are repeats of each other
     import encoders
